@@ -2,13 +2,40 @@ package verifsim
 
 import (
 	"fmt"
+	"os"
 	"reflect"
 	"sort"
 )
 
+// Before the first run of a process (package initialisation, first-use set-up done by the harness) the
+// order of map iteration is a decision of the simulator as well: VERIF_INIT_SEED, chosen by the driver per
+// worker process (0 or unset: sorted). Go gives a different order in every process; so does this.
+var (
+	initSeedRead bool
+	initSeed     uint64
+	initCtr      uint64
+	everActive   bool
+)
+
 //go:norace
 func mapSeed() (uint64, bool) {
-	if !active || !mapRand {
+	if !active {
+		if everActive {
+			return 0, false
+		}
+		if !initSeedRead {
+			initSeedRead = true
+			fmt.Sscan(os.Getenv("VERIF_INIT_SEED"), &initSeed)
+		}
+		if initSeed == 0 {
+			return 0, false
+		}
+		initCtr++
+		var r rng
+		r.seed(initSeed + initCtr*0x9e3779b97f4a7c15)
+		return r.next(), true
+	}
+	if !mapRand {
 		return 0, false
 	}
 	return rngMap.next(), true
